@@ -131,26 +131,15 @@ Proof. intros Hg. apply (imports_exact st root_path root _ ds (guard_exact_b _ _
 
 Theorem imports_error_iff_reach st root_path root :
   agree_b st (all_lines st root_path root (reach_b st root_path root)) = true ->
-  guard_names st root_path root = true ->
   (BadLine st root_path (fimports root) <->
    exists e, resolve_imports st root_path root = inl e /\ positioned e = true).
 Proof.
-  intros Ha Hn. apply (imports_error_iff st root_path root (reach_b st root_path root)); [|exact Hn].
+  intros Ha. apply (imports_error_iff st root_path root (reach_b st root_path root)).
   unfold error_guard_b. rewrite (reach_b_closed st root_path root), Ha. reflexivity.
-Qed.
-
-Theorem imports_no_panic_reach st root_path root :
-  guard_names st root_path root = true ->
-  resolve_imports st root_path root <> inl PanicMissingTarget.
-Proof.
-  intros Hn. apply (imports_no_panic st root_path root (reach_b st root_path root)); [|exact Hn].
-  apply reach_b_closed.
 Qed.
 
 (** non-vacuity of the [reach_b] guards: the cyclic, shared-target graph of [guards_satisfiable] *)
 Example reach_guards_satisfiable :
-  guard_exact st_rec k_main main_rec = true /\ guard_names st_rec k_main main_rec = true
-  /\ guard_exact st_diamond k_main main_diamond = false
-  /\ guard_names st_dup k_main {| fdefs := [Def false (s "Q") 0];
-                                  fimports := [imp (s "./x.graphql") (names [s "FA"; s "FA"])] |} = false.
-Proof. vm_compute. repeat split; reflexivity. Qed.
+  guard_exact st_rec k_main main_rec = true
+  /\ guard_exact st_diamond k_main main_diamond = false.
+Proof. vm_compute. split; reflexivity. Qed.
